@@ -1,9 +1,10 @@
 //! Kani proof harnesses over the `metrics` crate (engine E1 of /verif/DESIGN.md).
-#![allow(dead_code, unused_imports)]
+#![allow(dead_code, unused_imports, static_mut_refs)]
+pub mod c02;
 pub mod c03;
 pub mod c04;
 pub mod c14;
-pub const TABLES: &[&[(&str, fn())]] = &[c03::TABLE, c04::TABLE, c14::TABLE];
+pub const TABLES: &[&[(&str, fn())]] = &[c02::TABLE, c03::TABLE, c04::TABLE, c14::TABLE];
 
 /// Picks one of a small table of static strings by a symbolic index.
 pub fn pick(table: &'static [&'static str]) -> &'static str {
